@@ -425,7 +425,7 @@ func invoke(input OmegaInput) (output OmegaOutput) {
 	switch c.GetReasonType() {
 	case HOST_CALL:
 		input.VM.Registers[7] = INNERHOST
-		input.VM.Registers[8] = uint64(c.GetHostCallID())
+		input.VM.Registers[8] = c.HostCallIndex()
 
 	case PAGE_FAULT:
 		input.VM.Registers[7] = INNERFAULT
